@@ -329,7 +329,7 @@ def compute_landmarks_rescale_time(
         return None
 
     ls = validate_positive_float(ls, "ls")
-    ls_time = validate_positive_float(ls_time, "ls_time")
+    ls_time = validate_positive_float(ls_time, "ls_time", allow_inf=True)
     x = validate_time_x(x, times)
     time_factor = ls / ls_time
     x = x.at[:, -1].set(x[:, -1] * time_factor)
